@@ -34,7 +34,7 @@ def run(rep, work, tier, seed):
         leg_mutant(rep, work, SPEC, "mutant_leak_group",
                    cfg_text(dict(small, Bug="leak_group"), spec="Spec", invariants=INVS, properties=PROPS),
                    ["LexicalLookup", "Isolation", "TypeOK", "ScopeIdsFresh"]) if False else None
-    leg_r(rep, work, SPEC, f"conf_{tier}", cfg_text(conf, invariants=INVS), lambda: ScopesDriver(("A", "B")))
+    leg_r(rep, work, SPEC, f"conf_{tier}", cfg_text(conf, invariants=INVS), lambda: ScopesDriver(("A", "B")), world=True)
     # leg T: random programs beyond the exhaustive bound (depth 6, ~28 operations, 4 task(s)) validated by a trace
     # module generated from Scopes.tla
     rnd = random.Random(seed * 13 + 4)
